@@ -761,7 +761,7 @@ namespace mfuse
     inline void Vector::AngleVectors(Vector *forward, Vector *right, Vector *up) const
     {
         float                angle;
-        static float    sr, sp, sy, cr, cp, cy; // static to help MS compiler fp bugs
+        float    sr, sp, sy, cr, cp, cy;
 
         angle = yaw() * (M_PI_FLOAT * 2.0f / 360.0f);
         sy = sinf(angle);
@@ -794,7 +794,7 @@ namespace mfuse
     inline void Vector::AngleVectorsLeft(Vector *forward, Vector *left, Vector *up) const
     {
         float                angle;
-        static float    sr, sp, sy, cr, cp, cy; // static to help MS compiler fp bugs
+        float    sr, sp, sy, cr, cp, cy;
 
         angle = yaw() * (M_PI_FLOAT * 2.0f / 360.0f);
         sy = sinf(angle);
